@@ -9,7 +9,9 @@
                     visits them, nils dropped), oldest first
      plain e        e is kept as one constituent (not nil, not a stack, not a multi)
      wf e           e can be built by the API (no nil inside a stack's chain); every program's value is wf
-     expr / eval    programs = finite trees of Join / Wrap / Errorf / errors.Join / Stack / Collector / ParsePanic *)
+     expr / eval    programs = finite trees of Join / Wrap / Errorf / errors.Join / Stack / Collector / ParsePanic /
+                    errors.Unwrap (inner layers) / RemoveOk / Append
+     ok / unwrap1   ers.Ok / errors.Unwrap;   remove_ok   ers.RemoveOk = ers.Append(nil, ...) *)
 From FunV Require Import Base.Tac Base.ListX Model.ErrTree Proofs.ErrTree_base Proofs.ErrTree_agg Proofs.ErrTree_conc.
 From FunV Require Import Conc.LockedObject.
 Local Open Scope Z_scope.
@@ -98,6 +100,45 @@ Print Assumptions C12_as_join_iff.
 Theorem C12_as_genuine : forall k e v, as_ k e = Some v -> assignable k v = true /\ In v (nodes e).
 Proof. exact as_genuine. Qed.
 Print Assumptions C12_as_genuine.
+
+(* Ok / Wrap / RemoveOk / Append and inner layers (errors.Unwrap of an aggregate): nothing that still holds a
+   constituent is ever treated as nil *)
+Theorem C12_ok_holds_nothing : forall e, ok e = true -> constituents e = [].
+Proof. exact ok_no_constituents. Qed.
+Print Assumptions C12_ok_holds_nothing.
+
+Theorem C12_wrap_nil_iff : forall tag ann e, wrap tag ann e = Nil <-> ok e = true.
+Proof. exact wrap_nil_iff. Qed.
+Print Assumptions C12_wrap_nil_iff.
+
+Theorem C12_wrap_keeps :
+  forall tag ann e, constituents e <> [] ->
+    wrap tag ann e <> Nil /\ unwind (wrap tag ann e) = Ptr ann :: rev (constituents e).
+Proof. exact wrap_keeps. Qed.
+Print Assumptions C12_wrap_keeps.
+
+Theorem C12_wrap_is :
+  forall tag ann e t, plain t = true -> wf e = true -> ok e = false ->
+    go_is (wrap tag ann e) t = go_is e t || same (Ptr ann) t.
+Proof. exact wrap_is. Qed.
+Print Assumptions C12_wrap_is.
+
+Theorem C12_join_remove_ok : forall tag es, join tag (remove_ok es) = join tag es.
+Proof. exact join_remove_ok. Qed.
+Print Assumptions C12_join_remove_ok.
+
+Theorem C12_remove_ok_keeps : forall es e, In e es -> constituents e <> [] -> In e (remove_ok es).
+Proof. exact remove_ok_keeps. Qed.
+Print Assumptions C12_remove_ok_keeps.
+
+Theorem C12_inner_layer_kept :
+  forall tag g n es, wf (Stk g n es) = true -> (2 <= length es)%nat ->
+    let inner := unwrap1 tag (Stk g n es) in
+    value_len inner = 0 /\ ok inner = false /\ unwind inner = tl es /\ supplied [inner] = tl es
+    /\ (forall tag' ann, wrap tag' ann inner <> Nil /\ unwind (wrap tag' ann inner) = Ptr ann :: rev (tl es))
+    /\ (forall tag', join tag' [inner] <> Nil).
+Proof. exact inner_layer_kept. Qed.
+Print Assumptions C12_inner_layer_kept.
 
 (* ParsePanic marks every recovered panic with ErrRecoveredPanic — except a []error panic value
    (known finding C12:ParsePanic:error-slice; TestPanics/ParsePanic/ErrorSlice pins the behaviour) *)
